@@ -100,6 +100,13 @@ const OFFENDERS: &[(&str, &str)] = &[
     ("undefined name as an argument of a variable callee", "fn one_(a) {\nreturn a\n}\nq_ := one_(\u{1}y_)\n"),
     ("undefined name after a four-byte character in a string on the line", "w_ := \"🎉\"; q_ := \u{1}y_\n"),
     ("undefined name after four-byte characters in a comment above and a string on the line", "# 🎉🎉\nw_ := [\"a🎉b\", \"🎉\"]; q_ := w_[0] + \u{1}y_\n"),
+    ("undefined name as the second target of a list assignment", "p_ := 0\n[p_, \u{1}y_] = [1, 2]\n"),
+    ("undefined name as the first target of a list assignment", "p_ := 0\n[\u{1}y_, p_] = [1, 2]\n"),
+    ("undefined name as a nested target of a list assignment", "p_ := 0\nr_ := 0\n[p_, [r_, \u{1}y_]] = [1, [2, 3]]\n"),
+    ("undefined name as a target of an object assignment", "p_ := 0\n{\"a\": p_, \"b\": \u{1}y_} = {\"a\": 1, \"b\": 2}\n"),
+    ("undefined name as a collect target of a list assignment", "p_ := 0\n[p_, ..\u{1}y_] = [1, 2]\n"),
+    ("undefined name op-assigned inside a function", "fn sum_() {\n\u{1}y_ += 1\n}\n\u{2}sum_()\n"),
+    ("recursion from one call site", "fn rec_(n) {\nif n == 0 {\nreturn \u{1}u_\n}\nreturn \u{2}\u{7}\u{7}rec_(n - 1)\n}\nq_ := \u{3}rec_(3)\n"),
     ("missing property named by a pair pattern", "{\u{1}\"k\": p_} := {}\n"),
     ("missing property named by a shorthand pattern", "{\u{1}p_} := {}\n"),
     ("missing property named by the second entry of a pattern", "{\"a\": p_, \u{1}\"k\": [q_, r_]} := {\"a\": 1}\n"),
@@ -137,8 +144,13 @@ fn extract_markers(s: &str) -> (String, Vec<usize>) {
     let mut out = String::new();
     let mut marks: Vec<(u32, usize)> = vec![];
     for c in s.chars() {
-        if (c as u32) >= 1 && (c as u32) <= 8 {
-            marks.push((c as u32, out.len()));
+        if c == '\u{7}' {
+            // the previous mark once more (a frame that occurs twice in the trace)
+            if let Some(&(id, off)) = marks.last() {
+                marks.push((id, off));
+            }
+        } else if (c as u32) >= 1 && (c as u32) <= 8 {
+            marks.push((c as u32 * 10, out.len()));
         } else {
             out.push(c);
         }
@@ -471,6 +483,13 @@ impl Check for C18 {
                         }
                     }
                 }
+            }
+            // two textually identical literals at different places, the later one failing
+            for (pre2, lit, inner) in [("    ", "$\"${\"ab\"[k_]}\"", (1u32, 1u32)), ("", "$\"é${\"ab\"[k_]}\"", (1, 1)), ("\t", "$\"${w_}${\"ab\"[k_]}\"", (1, 1))] {
+                let src = format!("k_ := 0\nw_ := \"w\"\na_ := {}\nk_ = 5\n{}q_ := {}\n", lit, pre2, lit);
+                let second = src.rfind("${\"ab\"").unwrap() + 2;
+                let slot = off_to_pos(&src, second);
+                batch.push(Case::new(src, 6, format!("{} {} {} {}\u{1}the second of two identical literals fails", slot.0, slot.1, inner.0, inner.1)));
             }
             ctx.judge(std::mem::take(&mut batch), |c, r, o| self.oracle(c, r, o))?;
         }
